@@ -212,4 +212,14 @@ pub fn shim_zeroize_bytes<A: zeroize::Zeroize + crate::types::Bytes>(a: &mut A)
     a.zeroize()
 }
 
+/// `Result::and_then` (std documentation: calls `f` on the Ok value, passes an Err through untouched)
+pub assume_specification<T, E, U, F>[ std::result::Result::<T, E>::and_then ](r: std::result::Result<T, E>, f: F) -> (out: std::result::Result<U, E>)
+    where F: std::ops::FnOnce(T) -> std::result::Result<U, E> + std::marker::Destruct
+    requires
+        r is Ok ==> f.requires((r->Ok_0,)),
+    ensures
+        r is Ok ==> f.ensures((r->Ok_0,), out),
+        r is Err ==> out is Err && out->Err_0 == r->Err_0,
+;
+
 } // verus!
